@@ -54,7 +54,7 @@ func Malform(r *vh.Rand, b *Bundle, pkg string) string {
 		return cm[i], cp[i]
 	}
 	for tries := 0; tries < 20; tries++ {
-		switch r.Intn(15) {
+		switch r.Intn(16) {
 		case 0: // reference to a type nobody declares
 			if _, p := pickProp(func(m msgSite, p *Property) bool { return true }); p != nil {
 				p.F = &Field{Kind: "objref", Ref: &Ref{Name: "NoSuchType9"}}
@@ -157,7 +157,7 @@ func Malform(r *vh.Rand, b *Bundle, pkg string) string {
 			_, enums, _, _ := sites(b, pkg)
 			var cands []enumSite
 			for _, es := range enums {
-				if len(es.e.Opts) > 0 && !strings.HasSuffix(es.e.Opts[0], "UNSPECIFIED") {
+				if len(es.e.Opts) > 0 && es.e.Opts[0] != "UNSPECIFIED" && !strings.HasSuffix(es.e.Opts[0], "_UNSPECIFIED") {
 					cands = append(cands, es)
 				}
 			}
@@ -193,6 +193,32 @@ func Malform(r *vh.Rand, b *Bundle, pkg string) string {
 			f.Elements = append(f.Elements, &Element{Kind: "object", N: &Nested{Kind: "object", Name: "TWIN9"}},
 				&Element{Kind: "enum", N: &Nested{Kind: "enum", Name: twin.Name, Enum: twin}})
 			return "duplicate symbol: enum value named like a type"
+		case 15: // list method (QueryRequest in the request) without the one array of objects in the response
+			for _, f := range files {
+				for _, e := range f.Elements {
+					if e.Kind == "service" && len(e.Service.Methods) > 0 {
+						m := vh.Pick(r, e.Service.Methods)
+						sc := scopeOfMessage([]string{m.Name + "Request"}, m.Request, nil, false)
+						if sc.fields["query9"] {
+							continue
+						}
+						m.Request = append(m.Request, &Property{Name: "query9", F: &Field{Kind: "objref", Ref: &Ref{Pkg: "j5.list.v1", Name: "QueryRequest"}}})
+						switch r.Intn(3) {
+						case 0:
+							m.HasResp, m.Response = false, nil
+							return "list method without response"
+						case 1:
+							conformListResponse(m)
+							m.Response = append(m.Response, &Property{Name: "more9", F: &Field{Kind: "array", Item: &Field{Kind: "scalar", Scalar: &Scalar{Kind: "string"}}}})
+							return "list method with two arrays in the response"
+						default:
+							m.HasResp = true
+							m.Response = []*Property{{Name: "names9", F: &Field{Kind: "array", Item: &Field{Kind: "scalar", Scalar: &Scalar{Kind: "string"}}}}}
+							return "list method whose response array has no object items"
+						}
+					}
+				}
+			}
 		}
 	}
 	return ""
